@@ -42,6 +42,7 @@ var (
 	ErrNestedFunctionCall            = errors.New("Nested function calls are not currently supported in SELECT")
 	ErrInvalidPeriod                 = errors.New("Please specify a period in the form period(5s) where 5s can be any valid Go duration expression")
 	ErrInvalidStride                 = errors.New("Please specify a stride in the form stride(5s) where 5s can be any valid Go duration expression")
+	ErrLuaArrayParams                = errors.New("LUA requires its keys and arguments as arrays, like LUA('script', ARRAY(k1, k2), ARRAY(a1))")
 	ErrNotSelect                     = errors.New("Only SELECT statements are supported")
 	ErrUnterminatedIdentifier        = errors.New("Unterminated backtick-quoted identifier")
 )
@@ -96,15 +97,27 @@ var binaryGoExpr = map[string]func(goexpr.Expr, goexpr.Expr) goexpr.Expr{
 	"SISMEMBER": redis.SIsMember,
 }
 
-var ternaryGoExpr = map[string]func(goexpr.Expr, goexpr.Expr, goexpr.Expr) goexpr.Expr{
-	"SPLIT":      goexpr.Split,
-	"SUBSTR":     goexpr.Substr,
-	"REPLACEALL": goexpr.ReplaceAll,
-	"LUA": func(script goexpr.Expr, keys goexpr.Expr, args goexpr.Expr) goexpr.Expr {
-		_keys := keys.(*goexpr.ArrayExpr)
-		_args := args.(*goexpr.ArrayExpr)
-		return redis.Lua(script, _keys.Items, _args.Items...)
+var ternaryGoExpr = map[string]func(goexpr.Expr, goexpr.Expr, goexpr.Expr) (goexpr.Expr, error){
+	"SPLIT":      noError3(goexpr.Split),
+	"SUBSTR":     noError3(goexpr.Substr),
+	"REPLACEALL": noError3(goexpr.ReplaceAll),
+	"LUA": func(script goexpr.Expr, keys goexpr.Expr, args goexpr.Expr) (goexpr.Expr, error) {
+		_keys, ok := keys.(*goexpr.ArrayExpr)
+		if !ok {
+			return nil, ErrLuaArrayParams
+		}
+		_args, ok := args.(*goexpr.ArrayExpr)
+		if !ok {
+			return nil, ErrLuaArrayParams
+		}
+		return redis.Lua(script, _keys.Items, _args.Items...), nil
 	},
+}
+
+func noError3(fn func(goexpr.Expr, goexpr.Expr, goexpr.Expr) goexpr.Expr) func(goexpr.Expr, goexpr.Expr, goexpr.Expr) (goexpr.Expr, error) {
+	return func(a goexpr.Expr, b goexpr.Expr, c goexpr.Expr) (goexpr.Expr, error) {
+		return fn(a, b, c), nil
+	}
 }
 
 func crosstabExprFor(exprs ...goexpr.Expr) goexpr.Expr {
@@ -1259,7 +1272,7 @@ func goFnExprFor(e *sqlparser.FuncExpr, fname string) (goexpr.Expr, error) {
 		if err != nil {
 			return nil, err
 		}
-		return tfn(p0, p1, p2), nil
+		return tfn(p0, p1, p2)
 	}
 	vfn, found := varGoExpr[fname]
 	if found {
